@@ -26,7 +26,7 @@ def register(reg):
         ensures=["result == member(self, header)"],
     )
     reg.contract(
-        "werkzeug/datastructures/structures.py:HeaderSet.find", prop=P, self_model=HS,
+        "werkzeug/datastructures/structures.py:HeaderSet.find", modifies=[], prop=P, self_model=HS,
         params={"header": "str"}, returns="int", requires=["I_hs(self)"],
         ensures=["implies(result < 0, result == -1 and not member(self, header))",
                  "implies(result >= 0, result < len(self._headers) and self._headers[result].lower() == header.lower() "
